@@ -95,6 +95,10 @@ pub struct Case {
     /// (child-process cases) LoggerHandle::flush() after every record
     #[serde(default)]
     pub flush_between: bool,
+    /// (child-process cases with a log file) the FileSpec keeps its default start time in the
+    /// file name instead of suppressing it
+    #[serde(default)]
+    pub file_start_ts: bool,
 }
 
 #[derive(Clone, Copy, Debug, Serialize, Deserialize, PartialEq, Eq)]
@@ -190,8 +194,16 @@ pub fn child_main(file: &std::path::Path) -> ! {
         StdKind::Stdout => l.log_to_stdout(),
         StdKind::Stderr => l.log_to_stderr(),
         StdKind::Buffer => l.log_to_buffer(10_000_000, Some(case.fmt.func())),
-        StdKind::FileDupErr => l.log_to_file(FileSpec::default().directory(&dir).basename("out").suppress_timestamp()).duplicate_to_stderr(flexi_logger::Duplicate::All),
-        StdKind::FileDupOut => l.log_to_file(FileSpec::default().directory(&dir).basename("out").suppress_timestamp()).duplicate_to_stdout(flexi_logger::Duplicate::All),
+        StdKind::FileDupErr | StdKind::FileDupOut => {
+            let fs = FileSpec::default().directory(&dir).basename("out");
+            let fs = if case.file_start_ts { fs } else { fs.suppress_timestamp() };
+            let l = l.log_to_file(fs);
+            if case.std_out == Some(StdKind::FileDupErr) {
+                l.duplicate_to_stderr(flexi_logger::Duplicate::All)
+            } else {
+                l.duplicate_to_stdout(flexi_logger::Duplicate::All)
+            }
+        }
     };
     let (log, handle) = match l.build() {
         Ok(x) => x,
@@ -253,7 +265,12 @@ fn run_std(case: &Case, kind: StdKind) -> Outcome {
         StdKind::Stderr => compare_stream(case, "stderr", &co.stderr, &segs, b"\n", &rep.thread),
         StdKind::Buffer => compare_stream(case, "buffer snapshot", rep.snapshot.clone().unwrap_or_default().as_bytes(), &segs, b"\n", &rep.thread),
         StdKind::FileDupErr | StdKind::FileDupOut => {
-            let file = std::fs::read(sc.sub("childlogs/out.log")).unwrap_or_default();
+            // (with a start time in the name: the only file in the directory)
+            let file = if case.file_start_ts {
+                std::fs::read_dir(sc.sub("childlogs")).ok().and_then(|mut d| d.next()).and_then(|e| e.ok()).and_then(|e| std::fs::read(e.path()).ok()).unwrap_or_default()
+            } else {
+                std::fs::read(sc.sub("childlogs/out.log")).unwrap_or_default()
+            };
             compare_stream(case, "log file", &file, &segs, b"\n", &rep.thread).and_then(|()| {
                 let dupl = if kind == StdKind::FileDupErr { &co.stderr } else { &co.stdout };
                 compare_stream(case, "duplicate stream", dupl, &segs, b"\n", &rep.thread).map_err(|(s, m)| (format!("duplicate:{s}"), m))
@@ -557,13 +574,16 @@ impl Property for P {
             .prop_flat_map(|(fmt, crlf, mode, t0, tick, multi, std_out, utc, flush_between)| {
                 let utc = utc && std_out.is_some();
                 let flush_between = flush_between && std_out.is_some();
+
                 let dup = matches!(std_out, Some(StdKind::FileDupErr | StdKind::FileDupOut));
+                // (the bit of `multi` has no meaning for child-process cases: reused)
+                let file_start_ts = multi && matches!(std_out, Some(StdKind::FileDupErr | StdKind::FileDupOut));
                 let multi = multi && std_out.is_none();
                 let crlf = crlf && std_out.is_none();
                 let allow_inner = !multi && !dup;
-                (Just((fmt, crlf, mode, t0, tick, multi, std_out, utc, flush_between)), prop::collection::vec(rc_strat(allow_inner), 1..8))
+                (Just((fmt, crlf, mode, t0, tick, multi, std_out, utc, flush_between, file_start_ts)), prop::collection::vec(rc_strat(allow_inner), 1..8))
             })
-            .prop_map(|((fmt, crlf, mode, t0, tick, multi, std_out, utc, flush_between), recs)| Case {
+            .prop_map(|((fmt, crlf, mode, t0, tick, multi, std_out, utc, flush_between, file_start_ts), recs)| Case {
                 tz: crate::vtime::tz_name(),
                 fmt,
                 crlf,
@@ -575,6 +595,7 @@ impl Property for P {
                 std_out,
                 utc,
                 flush_between,
+                file_start_ts,
             })
             .boxed()
     }
